@@ -73,12 +73,19 @@ def progPlain (prog : XV.Peg.Prog) : Bool :=
         a.items.all (fun it => match it.item with | .guardInvalid => false | _ => true))
     | _ => true))
 
+/-- the hypothesis `pureB` of `recogniser_complete_for_peg_semantics`, as the driver evaluates it -/
+def progPure (prog : XV.Peg.Prog) : Bool :=
+  prog.all (fun r => (match r.deco with | .leftrec => false | _ => true) && (match r.body with
+    | .alts as _ ul => !ul && as.all (fun a => (match a.act with | .truthy | .mayRaise | .gate _ => true | _ => false) &&
+        a.items.all (fun it => match it.item with | .guardInvalid => false | _ => true))
+    | _ => true))
+
 /-- `progfacts # prog` : decidable facts about a program sent over the wire (hypotheses of the C17 theorems) -/
 def handleProgFacts (fs : List String) : String :=
   match fs with
   | "#" :: rest =>
     match WireProg.readProg rest with
-    | some (prog, _) => s!"nofalsy={progNoFalsy prog} plain={progPlain prog}"
+    | some (prog, _) => s!"nofalsy={progNoFalsy prog} plain={progPlain prog} pure={progPure prog}"
     | none => "bad-program"
   | _ => "bad-request"
 
